@@ -20,6 +20,9 @@ let ocaml_string_of (s : Model.string) : Stdlib.String.t =
   go s; Buffer.contents buf
 
 let b s = s = "1"
+let unhex (h : Stdlib.String.t) : Model.string =
+  if h = "-" then coq_string_of "" else
+  coq_string_of (Stdlib.String.init (Stdlib.String.length h / 2) (fun i -> Stdlib.Char.chr (Conv.hexval h.[2*i] * 16 + Conv.hexval h.[2*i+1])))
 (* names are sent with '_' for ' ' (e.g. config_get) *)
 let name s = coq_string_of (Stdlib.String.map (fun c -> if c = '_' then ' ' else c) s)
 let lock_str = function LExcl -> "excl" | LShared -> "shared" | LNone -> "none"
@@ -58,4 +61,26 @@ let handle (toks : Stdlib.String.t list) : Stdlib.String.t =
   | ["lua_documented"] -> Stdlib.String.concat "," (Stdlib.List.map ocaml_string_of documented_allow)
   | ["lua_dangerous"] -> Stdlib.String.concat "," (Stdlib.List.map ocaml_string_of dangerous_names)
   | ["dev_only"] -> Stdlib.String.concat "," (Stdlib.List.map ocaml_string_of dev_only)
+  (* role state (Model/RoleState.v); byte strings travel as hex, "-" = empty *)
+  | ["readonly_cmd"; a; ro] ->
+      (match readonly_cmd (unhex a) (b ro) with
+       | (RoOK, r) -> "ok:" ^ Conv.bool_str r
+       | (RoInvalid, r) -> "invalid:" ^ Conv.bool_str r)
+  (* prun <event>... from the default state; event = s:<hex value> (CONFIG SET protected-mode) | w (REWRITE) | r (restart);
+     reply: <stored mode, hex> <isProtected without password, default options> *)
+  | "prun" :: evs ->
+      let ev e = if e = "w" then PRewrite else if e = "r" then PRestart
+        else PSet (unhex (Stdlib.String.sub e 2 (Stdlib.String.length e - 2))) in
+      let st = prun (Stdlib.List.map ev evs) pstate0 in
+      let m = ocaml_string_of st.p_mode in
+      (if m = "" then "-" else Stdlib.String.concat "" (Stdlib.List.map (fun c -> Printf.sprintf "%02x" (Stdlib.Char.code c)) (Stdlib.List.of_seq (Stdlib.String.to_seq m))))
+      ^ " " ^ Conv.bool_str (is_protected false false st.p_mode false)
+  (* follow <pos> <aof_size> <hex command word>:<wire length>... : was setCaughtUp(true) called *)
+  | "follow" :: pos :: aofsize :: msgs ->
+      let msg t = (match Stdlib.String.split_on_char ':' t with
+        | [c; l] -> { fm_cmd = unhex c; fm_len = Conv.z_of_string l; fm_logged = true }
+        | _ -> failwith "bad message") in
+      Conv.bool_str (follow_session (Conv.z_of_string pos) (Conv.z_of_string aofsize) (Stdlib.List.map msg msgs))
+  | ["lower"; a] -> let m = ocaml_string_of (lower (unhex a)) in
+      if m = "" then "-" else Stdlib.String.concat "" (Stdlib.List.map (fun c -> Printf.sprintf "%02x" (Stdlib.Char.code c)) (Stdlib.List.of_seq (Stdlib.String.to_seq m)))
   | _ -> "?unknown"
